@@ -140,7 +140,13 @@ Proof. exact cstep_ts_releases. Qed.
 
 (* ... so after fix d8bfa53 no call of a whole history blocks, every call does exactly what the lock-free flavour
    does and all locks are free at the end - for all histories whose callbacks do not write the list they iterate
-   (ts_safe; aborting callbacks included) ... *)
+   (ts_safe; aborting callbacks included) ...
+   ATOMICITY ASSUMPTION (not a premise of the theorem, but of its reading for concurrent callers): crun_ts runs ONE
+   caller; it speaks about goroutines using one list at the same time only if every wrapper method is one atomic
+   step of this lock model - all twelve mutators under the write lock, all readers under the read lock of the
+   list's sync.RWMutex - so that concurrent use IS some sequential history. That is not proved here; it is tied to
+   the code by the free-running concurrent family of the harness (harness/cmd/c10/free.go, plain and -race builds),
+   and named in the evidence (assumptions, trusted_base). *)
 Theorem C10_ts_equals_plain : forall h st,
   forallb ts_safe h = true -> crun_ts lk0 st h = TDone (crun st h) lk0.
 Proof. exact crun_ts_equals_plain. Qed.
